@@ -3,6 +3,7 @@
   generic theorems; discharged for the regenerated table by kernel evaluation.
 -/
 import SV.Proofs.Numerify
+import SV.Proofs.RegexPos
 namespace SV
 open Spec
 
@@ -17,7 +18,12 @@ def pairwiseDisjoint : List (Component × Range) → Bool
 def Country.wfb (e : Country) : Bool :=
   (match parseSpec e.bbanSpec with
    | none => false
-   | some l => e.pattern == some (l.map itemOf) && (expandSpec l).length == e.bbanLength) &&
+   | some l =>
+     -- the live pattern demands, position by position, the classes of the structure string (it need not
+     -- be spelled item by item like the structure string)
+     (match e.pattern with
+      | some items => allFixed items && (expandItems items == expandItems (l.map itemOf))
+      | none => false) && (expandSpec l).length == e.bbanLength) &&
   e.ibanLength == e.bbanLength + 4 && decide (e.ibanLength ≤ 34) &&
   (match e.code with
    | [a, b] => isAsciiUpper a && isAsciiUpper b
@@ -27,7 +33,8 @@ def Country.wfb (e : Country) : Bool :=
   (e.bicLookup.getD []).all (fun k => ((e.positions.getD []).lookup k).isSome)
 
 structure Country.WF (e : Country) : Prop where
-  spec : ∃ l, parseSpec e.bbanSpec = some l ∧ e.pattern = some (l.map itemOf) ∧
+  spec : ∃ l items, parseSpec e.bbanSpec = some l ∧ e.pattern = some items ∧
+    (∀ (U : Unicode) (s : Str), matchItems U items s = matchItems U (l.map itemOf) s) ∧
     (expandSpec l).length = e.bbanLength
   ibanLen : e.ibanLength = e.bbanLength + 4
   maxLen : e.ibanLength ≤ 34
@@ -39,6 +46,13 @@ structure Country.WF (e : Country) : Prop where
   /-- the bank-identifying fields are published fields -/
   lookupDefined : ∀ k ∈ e.bicLookup.getD [], ((e.positions.getD []).lookup k).isSome = true
 
+theorem allFixed_map_itemOf : ∀ (l : List (Nat × SClass)), allFixed (l.map itemOf) = true
+  | [] => rfl
+  | (k, c) :: t => by
+    have := allFixed_map_itemOf t
+    simp only [allFixed, List.map_cons, List.all_cons, Bool.and_eq_true, beq_iff_eq] at *
+    exact ⟨by rw [(itemOf_lo k c).1, (itemOf_lo k c).2], this⟩
+
 theorem Country.wf_of_wfb {e : Country} (h : e.wfb = true) : e.WF := by
   unfold Country.wfb at h
   simp only [Bool.and_eq_true, decide_eq_true_eq, List.all_eq_true, beq_iff_eq] at h
@@ -48,7 +62,12 @@ theorem Country.wf_of_wfb {e : Country} (h : e.wfb = true) : e.WF := by
     | none => simp [hp] at h1
     | some l =>
       simp only [hp, Bool.and_eq_true, beq_iff_eq] at h1
-      exact ⟨l, rfl, h1.1, h1.2⟩
+      cases hpat : e.pattern with
+      | none => simp [hpat] at h1
+      | some items =>
+        simp only [hpat, Bool.and_eq_true, beq_iff_eq] at h1
+        exact ⟨l, items, rfl, rfl,
+          fun U s => matchItems_congr U h1.1.1 (allFixed_map_itemOf l) h1.1.2 s, h1.2⟩
   · match hc : e.code, h4 with
     | [a, b], h4 =>
       simp only [Bool.and_eq_true] at h4
